@@ -1,0 +1,32 @@
+/* Verification hooks (compiled in only when MUSCLE_VERIF_HOOKS is defined; see /verif/DESIGN.md section 2.6).
+ * A table of optional callbacks that a controlled scheduler can install in order to own every
+ * synchronisation point of the library (Mutex, WaitCondition, AtomicCounter, Thread).  When no table is
+ * installed (the default) every hook is a not-taken branch and the library behaves exactly as without the define.
+ */
+#ifndef MuscleVerifHooks_h
+#define MuscleVerifHooks_h
+
+#ifdef MUSCLE_VERIF_HOOKS
+
+struct MuscleVerifHooks
+{
+   void (*atomicOp)(const volatile void * counter, int kind);                 /* before ++ (1), -- (2), load (3), store (4), compare-and-set (5) */
+   void (*mutexLock)(const void * mutex);                                      /* before the native lock; returns once the scheduler has granted the mutex */
+   void (*mutexTryLock)(const void * mutex);                                   /* before the native try-lock */
+   void (*mutexUnlock)(const void * mutex);                                    /* after the native unlock */
+   int  (*condWait)(const void * wc, const volatile unsigned int * pendingCount, int timed);  /* at entry of a wait; returns non-zero => behave as if the timeout had fired */
+   void (*condNotify)(const void * wc);                                        /* at entry of a notify */
+   void (*threadPreSpawn)(const void * threadObj);                             /* in the parent, before the native thread is created */
+   void (*threadBegin)(const void * threadObj);                                /* first statement of the new thread */
+   void (*threadEnd)(const void * threadObj);                                  /* last statement of the thread */
+   void (*threadJoin)(const void * threadObj);                                 /* before the native join */
+   void (*signalSend)(const void * threadObj, int fd);                         /* before a wake-up byte is written to a signalling socket */
+   int  (*socketWait)(const void * threadObj, int fd, int timed);              /* before blocking on the signalling socket; non-zero => behave as if the timeout had fired */
+};
+
+/* one shared instance across all translation units (inline function with a constant-initialised static) */
+inline MuscleVerifHooks * & GetMuscleVerifHooksRef() {static MuscleVerifHooks * p = 0; return p;}
+
+#endif
+
+#endif
